@@ -42,7 +42,7 @@ from . import _wsrig as R
 
 ID = "C16"
 LEVEL = "exploration"
-QUICK_N = 60000
+QUICK_N = 40000
 THOROUGH_N = 1500000
 CHUNK = 250
 RULE = ("gen(seed): rig (raw peer as client / raw peer as server / real client+server), ping interval "
